@@ -17,6 +17,11 @@ def gen_case(rng):
         r = rng.random()
         if r < 0.4:
             used.append([hash_name, o])
+            if rng.random() < 0.25:
+                # the very same value is also in use under another algorithm name (binary content has one md5 in both flavours)
+                used.append([rng.choice(["md5-dos2unix" if hash_name == "md5" else "md5", "etag"]), o])
+            if rng.random() < 0.15:
+                used.append([hash_name, o])  # plain duplicates
         elif r < 0.5:
             other = rng.choice(["sha256", "md5-dos2unix" if hash_name == "md5" else "md5", "etag"])
             used.append([other, o])
